@@ -691,6 +691,11 @@ def rule_breakers(draw):
     if kind == 'undefined-name':
         use = draw(st.sampled_from(
             ['hue qq_undefined',
+             # a first assignment cannot read its own target
+             'assign qq_undefined { qq_undefined + 1 }',
+             'assign qq_undefined qq_undefined',
+             'define qq_t begin assign qq_undefined { qq_undefined * 2 } end',
+             'assign qq_undefined [ floor qq_undefined ]',
              # a loop variable has no value yet in its own header
              'repeat with qq_undefined from 1 to qq_undefined wait',
              'repeat 3 with qq_undefined from qq_undefined to 9 wait',
